@@ -1241,6 +1241,20 @@ def ctrl12(ctx) -> List[Ob]:
                     out.append(bad("CTRL-12", fn.qualname, key, where, f"the value table is inverted into a plain mapping ({inverted[:50]}): when several control values select one target (unified headers entered over several arcs, loops left from several places to one block) all but the last are lost"))
                 else:
                     out.append(ok("CTRL-12", fn.qualname, key, where, "entries are copied / aggregated per target, not inverted"))
+            # ---- a table rebuilt target by target must walk the stored tuple: the filtered view hides the
+            #      declared back edge, whose entry (the latch's "continue" value) would be dropped
+            if isinstance(n, (ast.DictComp, ast.ListComp, ast.SetComp, ast.GeneratorExp)) and len(n.generators) == 2:
+                g0, g1 = n.generators
+                if isinstance(g0.iter, ast.Attribute) and g0.iter.attr in ("jump_targets", "_jump_targets") and isinstance(g1.iter, ast.Call) and isinstance(g1.iter.func, ast.Attribute) and g1.iter.func.attr == "items" and _is_table_expr(ctx, fn, g1.iter.func.value) and A.unparse(g0.iter.value) == A.unparse(g1.iter.func.value.value if isinstance(g1.iter.func.value, ast.Attribute) else g1.iter.func.value):
+                    key = "value table rebuilt per target: " + A.alpha_key(g0.iter)
+                    if g0.iter.attr == "jump_targets":
+                        out.append(bad("CTRL-12", fn.qualname, key, ctx.where(fn, n), "the table is rebuilt by walking the filtered view .jump_targets: the entry of a declared back edge (value 0 of an exiting latch) is dropped"))
+                    else:
+                        out.append(ok("CTRL-12", fn.qualname, key, ctx.where(fn, n), "walks the stored tuple, back edges included"))
+            if isinstance(n, ast.For) and isinstance(n.iter, ast.Attribute) and n.iter.attr == "jump_targets":
+                inner = [l2 for l2 in A.walk_no_nested(ast.Module(n.body, [])) if isinstance(l2, ast.For) and isinstance(l2.iter, ast.Call) and isinstance(l2.iter.func, ast.Attribute) and l2.iter.func.attr == "items" and _is_table_expr(ctx, fn, l2.iter.func.value) and isinstance(l2.iter.func.value, ast.Attribute) and A.unparse(l2.iter.func.value.value) == A.unparse(n.iter.value)]
+                if inner:
+                    out.append(bad("CTRL-12", fn.qualname, "value table rebuilt per target: " + A.alpha_key(n.iter), ctx.where(fn, n), "the table is rebuilt by walking the filtered view .jump_targets: the entry of a declared back edge (value 0 of an exiting latch) is dropped"))
             # ---- dict(zip(T.values(), T.keys())) and friends
             if isinstance(n, ast.Call) and isinstance(n.func, ast.Name) and n.func.id == "dict" and len(n.args) == 1:
                 a0 = n.args[0]
